@@ -37,7 +37,7 @@ func init() {
 		Batches:     func(tier string) int { return 16 },
 		Parallel:    func(tier string) int { return 8 },
 		Require: func(tier string) map[string]int64 {
-			return map[string]int64{"scenarios": 600, "directed_runs": 200, "directed_achieved": 40, "quiescent_checks": 600, "closed_checks": 60, "shared_session_scenarios": 60, "store_faults": 40, "panics_injected": 20, "panicking_write_callbacks": 10, "failing_calls": 40, "stale_aborts": 20, "waits_without_deadline": 20, "abandoned_use_sessions": 30, "stream_polls": 60, "stream_churns": 10, "blocked_next_closed_by_peer": 30,
+			return map[string]int64{"scenarios": 600, "directed_runs": 200, "directed_achieved": 15, "quiescent_checks": 600, "closed_checks": 60, "shared_session_scenarios": 60, "store_faults": 40, "panics_injected": 20, "panicking_write_callbacks": 10, "failing_calls": 40, "stale_aborts": 20, "waits_without_deadline": 20, "abandoned_use_sessions": 30, "stream_polls": 60, "stream_churns": 10, "blocked_next_closed_by_peer": 30,
 				"cancelled_contexts": 60, "hook_events": 20000, "interleavings_recorded": 300}
 		},
 		WorkerTimeoutSec: func(tier string) int {
